@@ -11,7 +11,7 @@ namespace YangVerif.XP
 /-- typed values as the comparison sees them -/
 inductive V
   | int (i : Int)                -- every integer type, signed or unsigned, any width
-  | dec (n : Int)                -- decimal64, scaled by 10^fraction-digits
+  | dec (n : Int) (scale : Nat)  -- a number with a fraction: n / 10^scale (decimal64 values, literals like 2.5)
   | str (s : String)
   | bool (b : Bool)
   | enum (label : String)
@@ -20,10 +20,13 @@ deriving DecidableEq, Repr, Inhabited
 inductive Op | eq | ne | lt | le | gt | ge
 deriving DecidableEq, Repr, Inhabited
 
-/-- the order of two values of one kind (val.Compare after the literal was converted to the leaf's type) -/
+/-- the order of two values: numbers of every kind are compared as numbers (cross-multiplied, so that nothing
+    is rounded: a/10^s ? b/10^t  is  a*10^t ? b*10^s), everything else within its kind -/
 def ord : V → V → Option Ordering
   | .int a, .int b => some (compare a b)
-  | .dec a, .dec b => some (compare a b)
+  | .dec a s, .dec b t => some (compare (a * 10 ^ t) (b * 10 ^ s))
+  | .int a, .dec b t => some (compare (a * 10 ^ t) b)
+  | .dec a s, .int b => some (compare a (b * 10 ^ s))
   | .str a, .str b => some (compare a b)
   | .bool a, .bool b => some (compare a.toNat b.toNat)
   | .enum a, .enum b => some (if a = b then .eq else compare a b)
